@@ -1162,6 +1162,10 @@ class GitWorkingTree(MutableGitIndexTree, workingtree.WorkingTree):
                 if subtree:
                     trace.warning("skipping nested tree %r", abs_user_dir)
                     continue
+                if action is not None and action.skip_file(
+                    self, abs_user_dir, "directory", None
+                ):
+                    continue
 
                 for name in os.listdir(abs_user_dir):
                     subp = os.path.join(user_dir, name)
@@ -1183,6 +1187,10 @@ class GitWorkingTree(MutableGitIndexTree, workingtree.WorkingTree):
                             # Already present
                             continue
                         if subp in conflicts_related:
+                            continue
+                        if action is not None and action.skip_file(
+                            self, abspath, kind, None
+                        ):
                             continue
                         call_action(subp, kind)
                         if save:
